@@ -137,6 +137,15 @@ func callWithWatchdog(f func()) (verdict string, detail string, pv any) {
 
 var deadlocksWitnessed int64
 
+// normState reduces "[chan send, 2 minutes]:" / "[chan send]:" / "[select, locked to thread]:" to "[chan send]".
+func normState(hdr string) string {
+	hdr = strings.TrimSuffix(strings.TrimSpace(hdr), ":")
+	if i := strings.Index(hdr, ","); i >= 0 {
+		hdr = hdr[:i] + "]"
+	}
+	return hdr
+}
+
 func allStacks() string {
 	buf := make([]byte, 1<<20)
 	n := runtime.Stack(buf, true)
@@ -156,9 +165,7 @@ func parGoroutines() string {
 			if i := strings.Index(hdr, "["); i >= 0 {
 				hdr = hdr[i:]
 			}
-			if i := strings.Index(hdr, ","); i >= 0 {
-				hdr = hdr[:i] + "]" // drop the minutes counter
-			}
+			hdr = normState(hdr)
 			var fr []string
 			for _, l := range lines[1:] {
 				if !strings.HasPrefix(l, "\t") {
@@ -684,9 +691,7 @@ func bsiGoroutines() string {
 		if i := strings.Index(hdr, "["); i >= 0 {
 			hdr = hdr[i:]
 		}
-		if i := strings.Index(hdr, ","); i >= 0 {
-			hdr = hdr[:i] + "]"
-		}
+		hdr = normState(hdr)
 		var fr []string
 		for _, l := range lines[1:] {
 			if !strings.HasPrefix(l, "\t") {
@@ -762,9 +767,9 @@ func c12BSI(inner func(c *Ctx)) func(c *Ctx) {
 					if d1 == "" && d2 == "" {
 						continue // the workload is busy outside the index (model, harness): keep waiting
 					}
-					c.Note("BSI watchdog fired without confirmation: " + firstLines(d2, 6))
-					c.Count("inconclusive_watchdog")
-					<-done
+					// not (yet) provably blocked: look again after another interval
+					c.Count("bsi_watchdog_polls_without_confirmation")
+					continue
 				}
 			}
 			break
